@@ -76,6 +76,7 @@ func Load(repoDir, verifDir string) (*Engine, error) {
 	}
 	overlay := map[string][]byte{}
 	// dependency specs: overlaid into the vspec package
+	replaySpecsDir = filepath.Join(verifDir, "specs")
 	specs, _ := filepath.Glob(filepath.Join(verifDir, "specs", "*.go"))
 	sort.Strings(specs)
 	vdir := filepath.Join(repoDir, "internal", "vspec")
